@@ -98,6 +98,15 @@ OpOf(op) == CASE op = "+=" -> "+" [] op = "-=" -> "-" [] op = "*=" -> "*" [] op 
               [] op = "**=" -> "**" [] op = "<<=" -> "<<" [] op = ">>=" -> ">>" [] op = ">>>=" -> ">>>"
               [] op = "&=" -> "&" [] op = "|=" -> "|" [] op = "^=" -> "^" [] OTHER -> op
 
+(* the shape the lowering itself produces:  (t = B, .., t == null ? undefined : REST)  *)
+IsLoweredChain(x, S) ==
+  /\ x.t = "ParenthesisExpression" /\ x.c[1].t = "SequenceExpression" /\ Len(x.c[1].c[1].c) >= 2
+  /\ LET last == StripParen(x.c[1].c[1].c[Len(x.c[1].c[1].c)]) IN
+       /\ last.t = "ConditionalExpression"
+       /\ LET tst == StripParen(last.c[1]) IN
+            /\ tst.t = "BinaryExpression" /\ tst.v = "==" /\ IsInj(tst.c[1], S) /\ tst.c[2].t = "NullLiteral"
+       /\ IsIdentNamed(StripParen(last.c[2]), "undefined")
+
 IsCallApply(c) == c.t = "MemberExpression" /\ c.c[2].t = "Identifier" /\ c.c[2].v \in {"call", "apply"}
 StripAt(v) == IF v.k = "path" THEN [v EXCEPT !.at = 0] ELSE v
 
@@ -254,7 +263,7 @@ EAssign(n, S) ==
            \* (parentheses the program wrote: around a native chain, (a?.b), or around a chain that was itself
            \* lowered, ((t' = .., t' == null ? undefined : ..)); the lowering's own parentheses -- directly around
            \* its sequence -- are not a closing: the lower part of one chain can be lowered on its own)
-           closed == rhs.t = "ParenthesisExpression" /\ rhs.c[1].t # "SequenceExpression"
+           closed == rhs.t = "ParenthesisExpression" /\ ~IsLoweredChain(rhs, S)
        IN Out([r.S EXCEPT !.b = (lhs.v :> r.v) @@ @, !.cl = IF closed THEN @ \cup {lhs.v} ELSE @ \ {lhs.v}], r.v)
   ELSE IF lhs.t = "Identifier" THEN
        IF op = "=" THEN
